@@ -268,6 +268,26 @@ func (iv *Inv) guardRejectsBech32(fn *ssa.Function, field string, depth int) (bo
 	return iv.bech32Rejects(fn, isField, depth, cg)
 }
 
+// successReturnsBehind: every return of fn that may carry a nil error is reached only through the success
+// edge of the validating call (or returns that call's error itself).
+func successReturnsBehind(fn *ssa.Function, call *ssa.Call) bool {
+	ev := errValues(fn, call)
+	for _, ret := range Returns(fn) {
+		rv := retVals(ret)
+		if len(rv) == 0 {
+			return false
+		}
+		last := rv[len(rv)-1]
+		if ev[last] || nonNilAt(last, ret.Block(), 0) {
+			continue
+		}
+		if !OnSuccessEdge(fn, ret, call) {
+			return false
+		}
+	}
+	return true
+}
+
 func (iv *Inv) bech32Rejects(fn *ssa.Function, isField func(ssa.Value) bool, depth int, cg *CallGraph) (bool, string) {
 	for _, s := range cg.Sites[fn] {
 		call := siteCall(s)
@@ -275,17 +295,8 @@ func (iv *Inv) bech32Rejects(fn *ssa.Function, isField func(ssa.Value) bool, dep
 			continue
 		}
 		if hasSuffixAny(callName(call.Common()), "types.AccAddressFromBech32") && isField(call.Common().Args[0]) {
-			ev := errValues(fn, call)
-			for _, e := range NilEdges(fn, ev, false) {
-				if FailsFrom(e.To()) {
-					return true, "in " + funcName(fn)
-				}
-			}
-			for _, ret := range Returns(fn) {
-				rv := retVals(ret)
-				if len(rv) > 0 && ev[rv[len(rv)-1]] {
-					return true, "in " + funcName(fn) + " (error returned)"
-				}
+			if successReturnsBehind(fn, call) {
+				return true, "in " + funcName(fn)
 			}
 		}
 		if depth >= 2 || len(s.Callees) != 1 || s.Invoke {
@@ -299,17 +310,8 @@ func (iv *Inv) bech32Rejects(fn *ssa.Function, isField func(ssa.Value) bool, dep
 				if !ok {
 					continue
 				}
-				ev := errValues(fn, call)
-				for _, e := range NilEdges(fn, ev, false) {
-					if FailsFrom(e.To()) {
-						return true, how + " via " + funcName(fn)
-					}
-				}
-				for _, ret := range Returns(fn) {
-					rv := retVals(ret)
-					if len(rv) > 0 && ev[rv[len(rv)-1]] {
-						return true, how + " via " + funcName(fn)
-					}
+				if successReturnsBehind(fn, call) {
+					return true, how + " via " + funcName(fn)
 				}
 			}
 		}
